@@ -418,6 +418,14 @@ def _clamp_word(facts, tr, rep, word, lo, hi):
                 return (False, False)
             return (False, False)
         if k == "field":
+            # the value a compare-exchange hands back (`Err(actual)` / `Ok(previous)`) is a value the word held
+            base_ = _strip(node[1])
+            if base_[0] == "downcast" and _strip(base_[1])[0] == "call":
+                cc0 = tr.call_of(_strip(base_[1]))
+                if atomic_method(cc0) in ("compare_exchange", "compare_exchange_weak", "fetch_update", "try_update", "swap") and cc0.args:
+                    w0, _ = word_of(tr, cc0.g.b, cc0.args[0], cc0.loc)
+                    if w0 == word:
+                        return (True, True)
             # `.0` of a checked-arithmetic tuple
             return ev(node[1], ctx, depth + 1)
         if k == "cast":
